@@ -31,7 +31,7 @@ def _work(case):
 
 
 def impl_batch(P, pid, cases, workers):
-    if workers <= 1 or len(cases) < 200:
+    if getattr(P, 'WORKERS', None) == 1 or workers <= 1 or len(cases) < 200:
         return [P.run_impl(c) for c in cases]
     ctx = multiprocessing.get_context("fork")
     with ctx.Pool(workers, initializer=_init, initargs=(pid,)) as pool:
